@@ -119,6 +119,10 @@ CofactorTT(pre, rem, T, F) ==
 C19StepFails(c, l) ==
   LET st == c.steps[l]  a == st.act  pre == HPre(c, l)
   IN IF ~WellFormed(pre) THEN {}
+     \* renaming to a fresh label and fixing a set of inputs are total on their documented arguments (only the replacement of a
+     \* subcircuit "or raises one of the documented errors"): a refusal of such a call is not the state the property describes
+     ELSE IF a.a \in {"rename_gate", "replace_inputs"} /\ st.ret = "raise" THEN
+       (IF SpecPre(pre, a) THEN {a.a \o "-refused-on-documented-arguments:" \o st.exc} ELSE {})
      ELSE IF a.a = "rename_gate" /\ st.ret = "ok" THEN
        LET post == Norm(st.post) IN
        FailSet(<<
